@@ -113,6 +113,14 @@ def simulate(
             period=period,
         )
 
+        _verif.emit(
+            "sim_space",
+            period=period,
+            sparse_vars=data_scs.sparse_vars,
+            dense_vars=data_scs.dense_vars,
+            segments=data_choice_segments,
+        )
+
         # Compute objects dependent on data-state-choice-space
         # ==============================================================================
         dense_vars_grid_shape = tuple(
@@ -157,6 +165,17 @@ def simulate(
             cont_choice_argmax = cont_choice_argmax[sparse_argmax]
             if dense_argmax is not None:
                 dense_argmax = dense_argmax[sparse_argmax]
+
+        _verif.emit(
+            "sim_policy",
+            period=period,
+            ccv=ccv,
+            ccv_policy=ccv_policy,
+            dense_argmax=dense_argmax,
+            sparse_argmax=sparse_argmax,
+            cont_choice_argmax=cont_choice_argmax,
+            value=value,
+        )
 
         # Convert optimal choice indices to actual choice values
         # ==============================================================================
